@@ -32,8 +32,27 @@ from pytools import UniqueNameGenerator
 _TOKEN_RE = re.compile(r"""(?:[^\s'"]|'[^']*'|"[^"]*"|['"])+""")
 
 
-def split_line_into_tokens(line):
-    """Split *line* at blanks that are not inside a quoted string."""
+def split_line_into_tokens(line, comment_start=None):
+    """Split *line* at blanks that are not inside a quoted string.
+
+    If *comment_start* is given, a trailing comment that starts with this
+    character (outside of a quoted string) stays on the token in front of
+    it: a continuation marker inside of the comment would be part of the
+    comment, and what follows would be read as a new statement.
+    """
+    if comment_start is not None:
+        code_end = re.match(
+                r"""(?:[^'"%s]|'[^']*'|"[^"]*")*""" % re.escape(comment_start),
+                line).end()
+        if line[code_end:code_end+1] == comment_start:
+            tokens = _TOKEN_RE.findall(line[:code_end])
+            comment = line[code_end:].rstrip()
+            if tokens:
+                tokens[-1] += " " + comment
+            else:
+                tokens = [comment]
+            return tokens
+
     return _TOKEN_RE.findall(line)
 
 
